@@ -1,6 +1,8 @@
 /-
   C12 — Tuning parameters change space/time only, never answers.
 -/
+import CSD.Generated.Bodies
+import CSD.Model.SourceText
 import CSD.Lemmas.PFCMeta
 
 namespace CSD.Props.C12
@@ -34,5 +36,17 @@ theorem pfc_bucketsize_clamped (b : Nat) (hb : b < 2) (S : List Str) :
   simp [hb]
 
 example : PFC.build 0 [[0x61], [0x62]] = PFC.build 2 [[0x61], [0x62]] := pfc_bucketsize_clamped 0 (by decide) _
+
+/-- The models this file's theorems are about were written against the current text of the C++
+functions they mirror (`CSD/Generated/Bodies.lean` is re-extracted from the sources on every run,
+`CSD/Model/SourceText.lean` is what was reviewed): an edit of one of these functions breaks this
+obligation even if no generated input tells the behaviours apart. -/
+theorem models_match_source_text :
+    Generated.body_PFC_ctor = SourceText.body_PFC_ctor ∧
+    Generated.body_PFC_locate = SourceText.body_PFC_locate ∧
+    Generated.body_PFC_locateBucket = SourceText.body_PFC_locateBucket ∧
+    Generated.body_PFC_getHeader = SourceText.body_PFC_getHeader ∧
+    Generated.body_PFC_decodeNextString = SourceText.body_PFC_decodeNextString ∧
+    Generated.body_PFC_extract = SourceText.body_PFC_extract := ⟨rfl, rfl, rfl, rfl, rfl, rfl⟩
 
 end CSD.Props.C12
